@@ -165,8 +165,12 @@ def run(chk: Check) -> None:
         raise AnalysisError("write_cache constructs no CacheMeta")
     fail_entries = []
     for n in g.nodes:
-        if n.kind == "test" and isinstance(n.exprs[0], ast.UnaryOp) and isinstance(n.exprs[0].op, ast.Not) and any(call_name(c) == "write" for c in n.calls()):
-            fail_entries += [(m, "failed data write") for m, lab in n.succ if lab == "true"]
+        if n.kind == "test":
+            t0 = n.exprs[0]
+            conj = t0.values if isinstance(t0, ast.BoolOp) and isinstance(t0.op, ast.And) else [t0]
+            # `not store.write(..)` alone or as a conjunct: the true branch is taken only after a failed write
+            if any(isinstance(v, ast.UnaryOp) and isinstance(v.op, ast.Not) and isinstance(v.operand, ast.Call) and call_name(v.operand) == "write" for v in conj):
+                fail_entries += [(m, "failed data write") for m, lab in n.succ if lab == "true"]
         if n.kind == "except" and n.stmt.type is not None and norm(n.stmt.type) == "OSError":
             fail_entries.append((n, "failed getmtime"))
         if n.kind == "test" and norm(n.exprs[0]) == "st is None":
